@@ -317,6 +317,23 @@ func (c *nxCluster) check() string {
 			}
 		}
 	}
+	if c.cfg.RequireCaughtUp {
+		if _, more := c.defaultEvent(); !more && len(c.msgs) == 0 {
+			maxc := uint64(0)
+			for _, h := range c.hosts {
+				if h.up {
+					if ci := (raft.VPeer{P: &h.node.p}).Committed(); ci > maxc {
+						maxc = ci
+					}
+				}
+			}
+			for _, h := range c.hosts {
+				if h.up && h.node.sm.GetLastApplied() < maxc {
+					c.fail("C17: at the end of the fault-free scenario replica %d has applied %d of %d committed entries", h.id, h.node.sm.GetLastApplied(), maxc)
+				}
+			}
+		}
+	}
 	if c.viol == "" && c.linCheck != nil {
 		if m := c.linCheck(c); m != "" {
 			c.fail("%s", m)
@@ -332,10 +349,12 @@ func (c *nxCluster) Canon() []byte {
 	for _, h := range c.hosts {
 		// the incarnation seeds the request keys of the host: part of the state
 		b.Sep('H').U(h.id, uint64(h.incar)).Bool(h.up).Bool(c.lazy[h.id]).Bool(c.scriptHold[h.id])
+		b.U(h.disk.val, h.disk.version, h.disk.lastIdx)
 		if h.up {
 			n := h.node
 			raft.VPeer{P: &n.p}.Canon(b)
 			b.U(n.appliedIndex, n.pushedIndex, n.confirmedIndex, n.sm.GetLastApplied(), h.usm.val, h.usm.version, h.lastUpdIdx)
+			b.Bool(h.pipe.stream)
 			b.Bool(h.pipe.step).Bool(h.pipe.apply).Bool(h.pipe.commit).Bool(h.pipe.save).Bool(h.pipe.recover).Bool(c.lazy[h.id]).Bool(c.scriptHold[h.id])
 			b.U(h.maxTermSent)
 			// the node's logical clock: deadlines are relative to it and ReadIndex
@@ -351,6 +370,10 @@ func (c *nxCluster) Canon() []byte {
 			for _, j := range p.pending {
 				b.U(j.shardID, j.instanceID, j.task.Index).Bool(j.task.Save).Bool(j.task.Stream).Bool(j.task.Recover).Bool(j.task.Initial)
 			}
+		}
+		if h.db == nil {
+			b.Sep('d') // a joiner that has not been started yet: no store
+			continue
 		}
 		st := nxState(h)
 		ss, _ := h.db.GetSnapshot(nxShard, h.id)
